@@ -384,6 +384,118 @@ def _const_fraction(node):
     raise ValueError("not a numeric literal expression")
 
 
+
+# ---------------------------------------------------------------------------------------------
+# C12: what Stage.clone does with every container of a stage
+CLONE_CONTAINERS = ["states", "qstates", "controls", "algebraics", "parameters", "variables", "_state_der", "_state_next", "_alg",
+                    "_constraints", "_objective", "_initial", "_placeholders", "_param_vals", "_scale_der", "_offsets", "_method", "_T", "_t0"]
+# containers whose values are expressions that may mention the template's time placeholders (t, T, t0, …)
+CLONE_MUST_SUBSTITUTE = ["_state_der", "_state_next", "_alg", "_constraints", "_objective", "_initial", "_placeholders"]
+# containers of containers: a shallow copy would share the inner lists between template and clones
+CLONE_MUST_DEEPCOPY = ["parameters", "variables", "_method"]
+
+
+def clonetable():
+    """container -> (how ret.<container> is produced, do its expressions go through substitute(…, subst_from, subst_to))"""
+    path = os.path.join(REPO, "rockit", "stage.py")
+    tree = ast.parse(open(path).read())
+    fn = _find_function(tree, "Stage", "clone")
+    kinds = {c: "missing" for c in CLONE_CONTAINERS}
+    subst = {c: False for c in CLONE_CONTAINERS}
+    if fn is None:
+        return {c: (kinds[c], subst[c]) for c in CLONE_CONTAINERS}
+    # local helper functions that call substitute(… subst_from, subst_to)
+    helpers = set()
+    for node in ast.walk(fn):
+        if isinstance(node, ast.FunctionDef) and node is not fn:
+            if any(isinstance(n, ast.Call) and isinstance(n.func, ast.Name) and n.func.id == "substitute" for n in ast.walk(node)):
+                helpers.add(node.name)
+    # names of local lists that are passed to substitute / a helper
+    fed = set()
+    for node in ast.walk(fn):
+        if isinstance(node, ast.Call) and isinstance(node.func, ast.Name) and (node.func.id == "substitute" or node.func.id in helpers):
+            for a in node.args[:1]:
+                for n in ast.walk(a):
+                    if isinstance(n, ast.Name):
+                        fed.add(n.id)
+                    at = self_attr(n) if isinstance(n, (ast.Attribute, ast.Subscript)) else None
+                    if at in subst:
+                        subst[at] = True
+    # containers that feed those local lists (orig = [...]; orig.extend(...); orig.append(...); for … in self._X …: orig…)
+    for node in ast.walk(fn):
+        tgt = None
+        val = None
+        if isinstance(node, ast.Assign) and len(node.targets) == 1 and isinstance(node.targets[0], ast.Name):
+            tgt, val = node.targets[0].id, node.value
+        elif isinstance(node, ast.Expr) and isinstance(node.value, ast.Call) and isinstance(node.value.func, ast.Attribute) \
+                and isinstance(node.value.func.value, ast.Name) and node.value.func.attr in ("extend", "append"):
+            tgt, val = node.value.func.value.id, node.value
+        if tgt in fed and val is not None:
+            for n in ast.walk(val):
+                at = self_attr(n) if isinstance(n, (ast.Attribute, ast.Subscript)) else None
+                if at in subst:
+                    subst[at] = True
+    # placeholders: renewed in the loop over self._placeholders; substituted if a helper/substitute is applied to their expression
+    for node in ast.walk(fn):
+        if isinstance(node, ast.For) and "_placeholders" in ast.unparse(node.iter) or (isinstance(node, ast.For) and "subst_from" in ast.unparse(node.iter)):
+            body_src = " ".join(ast.unparse(b) for b in node.body)
+            if "ret._placeholders[" in body_src:
+                kinds["_placeholders"] = "renewed"
+                if any(isinstance(n, ast.Call) and isinstance(n.func, ast.Name) and (n.func.id == "substitute" or n.func.id in helpers)
+                       for b in node.body for n in ast.walk(b)):
+                    subst["_placeholders"] = True
+    for node in ast.walk(fn):
+        if isinstance(node, ast.Assign) and len(node.targets) == 1:
+            t = node.targets[0]
+            if isinstance(t, ast.Attribute) and isinstance(t.value, ast.Name) and t.value.id == "ret" and t.attr in kinds:
+                v = node.value
+                src = _norm(ast.unparse(v))
+                if src == "copy(self.%s)" % t.attr:
+                    kind = "copy"
+                elif src == "deepcopy(self.%s)" % t.attr:
+                    kind = "deepcopy"
+                elif src == "self.%s" % t.attr:
+                    kind = "shared"
+                else:
+                    kind = "built"
+                    # built from self.<attr> through a substituting helper?
+                    for n in ast.walk(v):
+                        if isinstance(n, ast.Call) and isinstance(n.func, ast.Name) and (n.func.id == "substitute" or n.func.id in helpers):
+                            subst[t.attr] = True
+                if kinds[t.attr] in ("missing",) or t.attr not in ("_T", "_t0", "_method"):
+                    kinds[t.attr] = kind
+                elif t.attr == "_method" and kinds[t.attr] == "missing":
+                    kinds[t.attr] = kind
+    tab = {c: (kinds[c], subst[c]) for c in CLONE_CONTAINERS}
+    L = ["/-! GENERATED by tools/extract.py from /repo/rockit/stage.py (Stage.clone, line %d) — do not edit. -/" % getattr(fn, "lineno", 0),
+         "namespace Rockit.Generated", "",
+         "inductive CloneKind where", "  | copy | deepcopy | shared | built | renewed | missing", "deriving DecidableEq, Repr", "",
+         "/-- (container of a stage, how `Stage.clone` produces the clone's, whether its expressions go through the placeholder substitution) -/",
+         "def cloneTable : List (String × CloneKind × Bool) := ["]
+    items = list(tab.items())
+    for i, (c, (k, sb)) in enumerate(items):
+        L.append('  ("%s", .%s, %s)%s' % (c, k, str(sb).lower(), "," if i < len(items) - 1 else ""))
+    L += ["]", "", "/-- containers whose expressions may mention the template's time placeholders -/",
+          "def cloneMustSubstitute : List String := " + lean_str_list(CLONE_MUST_SUBSTITUTE), "",
+          "/-- containers of containers (a shallow copy shares the inner lists with the template) -/",
+          "def cloneMustDeepcopy : List String := " + lean_str_list(CLONE_MUST_DEEPCOPY), "", "end Rockit.Generated", ""]
+    path = os.path.join(OUT, "Clone.lean")
+    new_src = "\n".join(L)
+    if not os.path.exists(path) or open(path).read() != new_src:
+        open(path, "w").write(new_src)
+    return tab
+
+
+def clone_requirement_ok(name, kind, sub):
+    if kind == "missing":
+        return False
+    if name in CLONE_MUST_SUBSTITUTE and not sub:
+        return False
+    if name in CLONE_MUST_DEEPCOPY and kind != "deepcopy":
+        return False
+    return True
+
+
 _main_inval = main
 
 
@@ -391,6 +503,7 @@ def main():
     rows = _main_inval()
     guards()
     infcert()
+    clonetable()
     return rows
 
 
